@@ -391,7 +391,11 @@ def evaluate(t, env, cache=None):
         r = evaluate(t.args[0] if env.get("__salt__", 0.0) < 0.5 else t.args[1], env, cache)
     else:
         a = [evaluate(x, env, cache) for x in t.args]
-        r = _apply(op, a, t)
+        try:
+            r = _apply(op, a, t)
+        except (TypeError, ValueError) as e:
+            # an operand of a kind the operation is not defined for (None, text where a number is needed): the expression has no value
+            raise EvalError(f"{op}: {e}")
     cache[k] = r
     return r
 
@@ -671,7 +675,10 @@ def equivalent(a, b, samplers=None, n=24, tol=1e-7, extra_envs=(), seed_tag="", 
             va = evaluate(a, env, cache)
             vb = evaluate(b, env, cache)
         except EvalError as e:
-            return Verdict(False, good, None, f"evaluation failed: {e}")
+            # a term that has no value at this point (an operation the evaluator gives no meaning to, an operand of the wrong kind) decides
+            # nothing: neither equal nor different
+            from .values import Unsupported
+            raise Unsupported(f"a term of the comparison cannot be evaluated ({e}): not decided")
         va = np.asarray(_f(va), dtype=float)
         vb = np.asarray(_f(vb), dtype=float)
         if va.shape != vb.shape:
